@@ -48,6 +48,23 @@ class Ctx:
         }
 
 
+def add_function(ctx, name, fdef, logic=False):
+    """register a hand-built function definition (NT_FUNC_DEFINITION tree) in a Ctx; returns False if the reference typing rules reject it"""
+    tree = N('PUNC_DEFINE', None, [N('ID_PREDICATE' if logic else 'ID_FUNCTION', name), fdef])
+    res = rt.check_expression(tree, ctx.ref())
+    if res['status'] != 'ok':
+        return False
+    ctx.types[name] = res['type']
+    ctx.funcs[name] = res['args']
+    try:
+        ctx.vclass[name] = rt.value_class(tree, ctx.ref())
+    except rt.ClassErr:
+        pass
+    ctx.bodies[name] = tree
+    ctx.texts[name] = rg.render(tree, 'MATH')[0]
+    return True
+
+
 def model_type(t):
     """rstypes type -> sdmodel type"""
     if t[0] == 'e':
